@@ -364,10 +364,7 @@ Section ExecFiring.
 
   (** *** DELETE *)
   Definition delete_images (ctx : tctx) (tb : table) (w : option cond) : list (option row * option row) :=
-    match select_rows ctx w (indexed 0 (tb_rows tb)) with
-    | Some cands => map (fun ir => (Some (snd ir), @None row)) cands
-    | None => []
-    end.
+    map (fun ir => (Some (snd ir), @None row)) (collect_rows ctx w (indexed 0 (tb_rows tb))).
 
   Lemma can_truncate_no_triggers : forall d t, can_use_truncate d t = true -> triggers_for_table (d_trigs d) t EvDelete = [].
   Proof.
@@ -395,15 +392,14 @@ Section ExecFiring.
     destruct (is_none w && can_use_truncate d t) eqn:Etr.
     - inversion H; subst. apply andb_prop in Etr. destruct Etr as [_ Hc].
       symmetry. apply spec_two_pass_no_triggers. apply can_truncate_no_triggers; exact Hc.
-    - unfold delete_images. destruct (select_rows ctx w (indexed 0 (tb_rows tb))) as [cands|]; [|discriminate].
-      unfold Atomic.fireS, Atomic.fireRs in H.
+    - unfold delete_images. unfold Atomic.fireS, Atomic.fireRs in H.
       destruct (if is_none ctx then fire_stmt db run_body true (d_trigs d) t Before EvDelete d else (d, [], None)) as [[d1 l1] r1] eqn:E1.
       destruct r1; [discriminate|].
       match type of H with context [fire_rows db run_body true (d_trigs d) t Before EvDelete ?im 0 d1] =>
         destruct (fire_rows db run_body true (d_trigs d) t Before EvDelete im 0 d1) as [[d2 l2] r2] eqn:E2 end.
       destruct r2 as [[k c]|]; [discriminate|].
       destruct (match s_pk (tb_schema tb) with
-                | Some c => cascade_deletes t c cands 0 d2 0
+                | Some c => cascade_deletes t c (collect_rows ctx w (indexed 0 (tb_rows tb))) 0 d2 0
                 | None => (d2, None, 0) end) as [[d3 r3] m3] eqn:E3.
       destruct r3; [discriminate|].
       destruct (get_table d3 t) as [tb3|]; [|discriminate].
@@ -533,7 +529,6 @@ Section ExecFiring.
     intros b ctx d t w d' log o H. unfold do_delete in H.
     destruct (get_table d t) as [tb|]; [|inversion H; constructor].
     destruct (is_none w && can_use_truncate d t); [inversion H; constructor|].
-    destruct (select_rows ctx w (indexed 0 (tb_rows tb))) as [cands|]; [|inversion H; constructor].
     unfold Atomic.fireS, Atomic.fireRs in H.
     destruct (if is_none ctx then fire_stmt db run_body b (d_trigs d) t Before EvDelete d else (d, [], None)) as [[d1 l1] r1] eqn:E1.
     apply opt_stmt_legit in E1; [|auto].
@@ -543,7 +538,7 @@ Section ExecFiring.
     apply fire_rows_legit in E2; [|auto]. apply (rows_to_ok ctx) in E2.
     destruct r2 as [[k c]|]; [inversion H; subst; apply Forall_app; auto|].
     destruct (match s_pk (tb_schema tb) with
-              | Some c => cascade_deletes t c cands 0 d2 0
+              | Some c => cascade_deletes t c (collect_rows ctx w (indexed 0 (tb_rows tb))) 0 d2 0
               | None => (d2, None, 0) end) as [[d3 r3] m3] eqn:E3.
     destruct r3; [inversion H; subst; apply Forall_app; auto|].
     destruct (get_table d3 t) as [tb3|]; [|inversion H; subst; apply Forall_app; auto].
